@@ -652,6 +652,8 @@ void h_drop(void) { ghost_reset(); g.stores = 1; g_res_dtors = 0; g_calls = 0; C
     job('ReadyCore.Drop', b_drop, src.replace('          /* MakeTask stored its value at construction */', ''), 'DropF', ['RESULT_DTOR', 'Store', 'Call'], entry='h_drop')
     if getattr(ctx, 'prop', None) == 'C05':
         out = [j for j in out if re.search(r'Start|Task\.|ReadyCore|PromiseCore|Drop', j.name)]      # where a lazy chain starts and what a refused step does
+    if getattr(ctx, 'prop', None) == 'C02':
+        out = [j for j in out if re.search(r'PromiseCore|ReadyCore|ResultCore\.Impl|Drop\.Impl|UniqueCore|SharedCore', j.name)]      # the step kinds a pipeline is made of besides Core<>
     return out
 
 
